@@ -181,6 +181,34 @@ def snapdiff(a, b):
 
 
 # -------------------------------------------------------------------- reach
+class _Missing:
+    """Stands for an anchored function that no longer exists under that name (renamed / removed by a refactoring)."""
+
+    def __getattr__(self, k):
+        return self
+
+
+MISSING = _Missing()
+
+
+class Tolerant:
+    """getattr proxy used only to LOOK UP anchored functions for the reach monitor: a missing attribute yields
+    MISSING instead of raising, so that a refactoring can never turn a check inconclusive."""
+
+    def __init__(self, obj):
+        object.__setattr__(self, "_o", obj)
+
+    def __getattr__(self, k):
+        import types
+        try:
+            v = getattr(self._o, k)
+        except AttributeError:
+            return MISSING
+        if isinstance(v, (type, types.ModuleType)):
+            return Tolerant(v)
+        return v
+
+
 class Reach:
     """Which lines of the anchored functions did this execution reach?
     Uses sys.monitoring LINE events, each location disabled after first hit."""
@@ -200,10 +228,27 @@ class Reach:
         except ValueError:
             pass
         mon.register_callback(self.TOOL, mon.events.LINE, self._line)
+        import types
         for label, fn in funcs.items():
-            code = getattr(fn, "__code__", fn)
-            if hasattr(fn, "__func__"):
-                code = fn.__func__.__code__
+            if isinstance(fn, _Missing):
+                self.unresolved = getattr(self, "unresolved", []) + [label]
+                continue
+            code = None
+            seen = 0
+            # unwrap bound methods, functools wrappers and callable objects (a decorated function is still fine)
+            while fn is not None and seen < 6:
+                seen += 1
+                if isinstance(fn, types.CodeType):
+                    code = fn
+                    break
+                if hasattr(fn, "__code__"):
+                    code = fn.__code__
+                    break
+                fn = getattr(fn, "__func__", None) or getattr(fn, "__wrapped__", None) or getattr(fn, "func", None) \
+                    or getattr(type(fn), "__call__", None)
+            if code is None:
+                self.unresolved = getattr(self, "unresolved", []) + [label]
+                continue            # reach is informational: a refactoring must never make the check inconclusive
             self.codes[code] = label
             self.hits[label] = set()
             mon.set_local_events(self.TOOL, code, mon.events.LINE)
